@@ -38,8 +38,8 @@ func ruleAccumulatorAdd(c *core.Ctx, rule string) {
 	x := newExec(c)
 	type upd struct {
 		loc, val, when string
-		exists     string
-		sign       []string
+		exists         string
+		sign           []string
 	}
 	var updates []upd
 	valKey := "§" + fn.Params[2].Name()
@@ -126,11 +126,12 @@ func inPkgs(fn *ssa.Function, pkgs ...string) bool {
 func init() {
 	register(&Property{
 		ID:    "C02",
-		Rules: []string{"C02-R1", "C02-R2", "C02-R3", "C02-R4", "C02-R5", "C02-R6"},
+		Rules: []string{"C02-R1", "C02-R2", "C02-R3", "C02-R4", "C02-R5", "C02-R6", "C01-R1", "C01-R4", "C01-R5"},
 		Explain: "Decides the accounting shape of the register: C02-R1 at the register's expansion sites (template path via GetReportItem, the old reporter, the single-element and group-by-food forms) found → quantity x each resolved element under the element's name, not found → the food itself with its own quantity, and the same pair goes to the day's accumulator in the same branch; " +
 			"C02-R2 Accumulator.Add over sign(val) x exists routes negative values to the Negative slot and others to Positive, += for an existing key; " +
 			"C02-R3 the day's totals are listed through collect-then-sort on the element name; C02-R4 the constant register and summary templates are well-typed against the report item they are executed with (field paths exist, functions and arities match, numbers go through formatValue); C02-R5 NewLogNodeFromElements merges repeated foods of a day by name in first-appearance position; " +
-			"C02-R6 the register and summary reporters keep no state across days (a day's totals list only that day's elements): Process is streaming or accumulating, never both, and writes no package-level variable.",
+			"C02-R6 the register and summary reporters keep no state across days (a day's totals list only that day's elements): Process is streaming or accumulating, never both, and writes no package-level variable; " +
+			"C01-R1/R4/R5 (shared with C01) the resolved element lists the quantities are multiplied with are built by merge-by-name only, so each resolved element appears once.",
 		NotDecided: "the arithmetic, the exact text layout, that every selected day appears in file order (C06/C12)",
 		Run: func(c *core.Ctx) {
 			ruleExpansionSites(c, "C02-R1", func(fn *ssa.Function) bool { return inPkgs(fn, registerPkg, reporterPkg) })
@@ -143,6 +144,13 @@ func init() {
 			ruleReporterDiscipline(c, "C02-R6", registerPkg, core.CmdPath+"/internal/summary")
 			if fn := c.P.LookupFunc(core.LibPath, "NewLogNodeFromElements"); requireAnchor(c, "C02-R5", "NewLogNodeFromElements", fn != nil) {
 				ruleMergeByName(c, "C02-R5", fn, false)
+			}
+			// what the register multiplies the quantity with: the resolved lists (C01's construction discipline)
+			for _, r := range recursiveResolvers(c.P) {
+				analyseResolver(c, r, map[string]bool{"C01-R1": true, "C01-R5": true})
+			}
+			if fn := c.P.LookupMethod(core.LibPath, "Elements", "SumMerge"); requireAnchor(c, "C01-R4", "Elements.SumMerge", fn != nil) {
+				ruleMergeByName(c, "C01-R4", fn, true)
 			}
 		},
 	})
